@@ -653,6 +653,16 @@ func (e *Engine) registerInitIfaceConsts() {
 				if !ok {
 					continue
 				}
+				if fnv, ok := st.Val.(*ssa.Function); ok && e.onlyInitStores(g.Pkg.Pkg.Path(), g.Name()) {
+					// package-level function variable initialised once (e.g. `var now = time.Now`)
+					key := g.Pkg.Pkg.Path() + "." + g.Name()
+					gname, target := g.Name(), fnv
+					e.initConsts[key] = func(c *Ctx, s *State) (Value, bool) {
+						c.note("init-time constant " + gname + " = " + target.String() + " (only store is in init; tests stub it)")
+						return c.funcValue(s, target, nil), true
+					}
+					continue
+				}
 				mi, ok := st.Val.(*ssa.MakeInterface)
 				if !ok {
 					continue
